@@ -79,3 +79,9 @@ Print Assumptions C08_parsers_strict_partial.
 Theorem C08_refusals_are_the_exercised_ones_partial : Gen_C08.refusals = Gen_C08.expected_refusals.
 Proof. exact (refusals_eqb_eq _ _ Inst_C08.refusals_ok). Qed.
 Print Assumptions C08_refusals_are_the_exercised_ones_partial.
+
+(* the HDF5 writer stores the embedded top-level XML only where the HDF5 parser reads it *)
+Theorem C08_embedded_xml_stored_where_read_partial :
+  Gen_C08.embed_stores <> [] /\ forall w, In w Gen_C08.embed_stores -> In w Gen_C08.embed_reads.
+Proof. exact (embed_ok_spec _ _ Inst_C08.embed_ok_ok). Qed.
+Print Assumptions C08_embedded_xml_stored_where_read_partial.
